@@ -178,3 +178,521 @@ From V Require Proofs.ConstsTie.
 Theorem C19_constants_match_source : ConstsTie.magic_is_source_stmt /\ ConstsTie.golomb_is_source_stmt.
 Proof. exact (conj ConstsTie.magic_is_source ConstsTie.golomb_is_source). Qed.
 Print Assumptions C19_constants_match_source.
+
+(* ====================================================================================== *)
+(* Deepening: exact domains and protocol layouts, envelope acceptance set / truncation /  *)
+(* corruption, the serialize-only messages against strict protocol decoders (Spec/P2P.v), *)
+(* SimpleNode.send / wait_for / handshake on an in-memory stream.                         *)
+(* ====================================================================================== *)
+From V Require Import Model.Wire Spec.P2P Proofs.GcsP Proofs.EnvelopeP Proofs.P2PSpecP
+  Proofs.WireP Proofs.CodecExtraP.
+
+(* ---------------- fixed-width integers ---------------- *)
+
+Theorem C19_int_be_exact : forall len n,
+  (0 <= n < pow256 len ->
+     int_to_be n len = Ok (to_be len n) /\ length (to_be len n) = len /\
+     bytes_ok (to_be len n) /\ from_be (to_be len n) = n /\ to_be len n = rev (to_le len n)) /\
+  (~ (0 <= n < pow256 len) -> int_to_be n len = Err).
+Proof.
+  intros len n. split.
+  - intros H. repeat split.
+    + exact (int_to_be_ok n len H).
+    + exact (to_be_length len n).
+    + exact (to_be_ok len n).
+    + exact (from_be_to_be len n H).
+  - exact (int_to_be_err n len).
+Qed.
+Print Assumptions C19_int_be_exact.
+
+(* helper.int_to_byte / byte_to_int: one byte, the same in both byte orders *)
+Theorem C19_int_to_byte_exact : forall n,
+  (forall b, int_to_byte n = Ok b <-> (0 <= n < 256 /\ b = [n])) /\
+  (0 <= n < 256 -> exists b, int_to_byte n = Ok b /\ byte_to_int b = Ok n /\
+                             b = to_le 1 n /\ b = to_be 1 n).
+Proof. exact (fun n => conj (int_to_byte_iff n) (int_to_byte_roundtrip n)). Qed.
+Print Assumptions C19_int_to_byte_exact.
+
+(* ---------------- compact size against the protocol ---------------- *)
+
+(* encode_varint is WriteCompactSize on its whole domain, and its domain is [0, 2^64) *)
+Theorem C19_varint_eq_protocol : forall i,
+  (0 <= i < 18446744073709551616 -> encode_varint i = Ok (cs_bytes i)) /\
+  (forall b, encode_varint i = Ok b -> 0 <= i < 18446744073709551616 /\ b = cs_bytes i).
+Proof. exact (fun i => conj (encode_varint_eq_spec i) (encode_varint_inv i)). Qed.
+Print Assumptions C19_varint_eq_protocol.
+
+(* read_varint accepts everything the strict ReadCompactSize accepts, with the same result;
+   what the strict reader accepts is exactly the canonical encoding *)
+Theorem C19_varint_decode_extends_protocol : forall s n r,
+  read_cs s = Ok (n, r) ->
+  read_varint s = Ok (n, r) /\
+  (bytes_ok s -> 0 <= n < 18446744073709551616 /\ s = cs_bytes n ++ r).
+Proof.
+  exact (fun s n r H => conj (read_cs_implies_read_varint s n r H)
+                             (fun B => read_cs_canonical s n r B H)).
+Qed.
+Print Assumptions C19_varint_decode_extends_protocol.
+
+Theorem C19_read_cs_roundtrip : forall i rest,
+  0 <= i < 18446744073709551616 -> read_cs (cs_bytes i ++ rest) = Ok (i, rest).
+Proof. exact read_cs_roundtrip. Qed.
+Print Assumptions C19_read_cs_roundtrip.
+
+(* every value read from a byte stream is in the encodable range *)
+Theorem C19_varint_decoded_value_in_range : forall s n r,
+  bytes_ok s -> read_varint s = Ok (n, r) -> 0 <= n < 18446744073709551616.
+Proof. exact read_varint_range. Qed.
+Print Assumptions C19_varint_decoded_value_in_range.
+
+(* NOT an exact inverse in the decode-then-encode direction: non-canonical and truncated
+   encodings are read without an error (Bitcoin Core refuses both) *)
+Theorem C19_varint_noncanonical_accepted_refuted :
+  read_varint [253; 1; 0] = Ok (1, []) /\ encode_varint 1 = Ok [1] /\ read_cs [253; 1; 0] = Err.
+Proof. exact varint_noncanonical_accepted. Qed.
+Print Assumptions C19_varint_noncanonical_accepted_refuted.
+
+Theorem C19_varint_truncated_accepted_refuted :
+  encode_varint 253 = Ok [253; 253; 0] /\
+  read_varint [253] = Ok (0, []) /\ read_varint [253; 253] = Ok (253, []) /\
+  read_varint [255; 1] = Ok (1, []) /\
+  read_cs [253] = Err /\ read_cs [253; 253] = Err /\ read_cs [255; 1] = Err.
+Proof. exact varint_truncated_accepted. Qed.
+Print Assumptions C19_varint_truncated_accepted_refuted.
+
+Theorem C19_varstr_truncated_accepted_refuted :
+  encode_varstr [1; 2; 3; 4; 5] = Ok [5; 1; 2; 3; 4; 5] /\
+  read_varstr [5; 1; 2] = Ok ([1; 2], []).
+Proof. exact varstr_truncated_accepted. Qed.
+Print Assumptions C19_varstr_truncated_accepted_refuted.
+
+Theorem C19_varstr_exact : forall b,
+  ((exists e, encode_varstr b = Ok e) <-> zlen b < 18446744073709551616) /\
+  (forall e, encode_varstr b = Ok e -> e = cs_bytes (zlen b) ++ b).
+Proof. exact (fun b => conj (encode_varstr_ok_iff b) (encode_varstr_layout b)). Qed.
+Print Assumptions C19_varstr_exact.
+
+Theorem C19_varstr_prefix_free : forall b1 b2 e1 e2 r1 r2,
+  zlen b1 < 9223372036854775808 -> zlen b2 < 9223372036854775808 ->
+  encode_varstr b1 = Ok e1 -> encode_varstr b2 = Ok e2 ->
+  e1 ++ r1 = e2 ++ r2 -> b1 = b2 /\ r1 = r2.
+Proof. exact varstr_prefix_free. Qed.
+Print Assumptions C19_varstr_prefix_free.
+
+(* ---------------- envelope ---------------- *)
+
+(* magic, zero-padded command, length, checksum, payload — and nothing else; serialize
+   raises exactly for payloads of 2^32 bytes or more *)
+Theorem C19_envelope_layout :
+  forall (hash256 : bytes -> bytes), (forall x, length (hash256 x) = 32%nat) ->
+  forall net cmd payload,
+  ((exists e, env_serialize hash256 net cmd payload = Ok e) <-> zlen payload < 4294967296) /\
+  (zlen payload < 4294967296 ->
+     env_serialize hash256 net cmd payload =
+       Ok (magic_of net ++ (cmd ++ repeatz 0 (12 - length cmd)) ++ to_le 4 (zlen payload)
+           ++ firstn 4 (hash256 payload) ++ payload)) /\
+  (forall e, (length cmd <= 12)%nat -> env_serialize hash256 net cmd payload = Ok e ->
+     length e = (24 + length payload)%nat).
+Proof.
+  intros H HL net cmd payload. split; [exact (env_serialize_ok_iff H net cmd payload)|].
+  split; [exact (env_serialize_layout H net cmd payload)|].
+  exact (env_serialize_length H HL net cmd payload).
+Qed.
+Print Assumptions C19_envelope_layout.
+
+(* NetworkEnvelope.parse accepts EXACTLY the complete frames *)
+Theorem C19_envelope_accepts_exactly_frames :
+  forall (hash256 : bytes -> bytes), (forall x, length (hash256 x) = 32%nat) ->
+  forall net s cmd p rest, bytes_ok s ->
+  (env_parse hash256 net s = Ok (cmd, p, rest) <->
+   exists c, length c = 12%nat /\ strip0 c = cmd /\ zlen p < 4294967296 /\
+     s = magic_of net ++ c ++ to_le 4 (zlen p) ++ firstn 4 (hash256 p) ++ p ++ rest).
+Proof. exact env_parse_accepts_iff. Qed.
+Print Assumptions C19_envelope_accepts_exactly_frames.
+
+(* the round trip returns strip(command); that is the command itself exactly under the guard *)
+Theorem C19_envelope_roundtrip_guard_exact :
+  forall (hash256 : bytes -> bytes), (forall x, length (hash256 x) = 32%nat) ->
+  forall net cmd payload rest,
+  (length cmd <= 12)%nat -> zlen payload < 4294967296 ->
+  exists e, env_serialize hash256 net cmd payload = Ok e /\
+    env_parse hash256 net (e ++ rest) = Ok (strip0 cmd, payload, rest) /\
+    (strip0 cmd = cmd <-> no_nul_ends cmd).
+Proof. exact env_roundtrip_guard_exact. Qed.
+Print Assumptions C19_envelope_roundtrip_guard_exact.
+
+Theorem C19_envelope_rejects_other_network :
+  forall (hash256 : bytes -> bytes) net net' cmd payload e rest,
+  0 <= net <= 3 -> 0 <= net' <= 3 -> net <> net' ->
+  env_serialize hash256 net cmd payload = Ok e ->
+  env_parse hash256 net' (e ++ rest) = Err.
+Proof. exact env_rejects_other_network. Qed.
+Print Assumptions C19_envelope_rejects_other_network.
+
+(* every proper prefix of an envelope is rejected (truncation at every offset) *)
+Theorem C19_envelope_rejects_truncation :
+  forall (hash256 : bytes -> bytes), (forall x, length (hash256 x) = 32%nat) ->
+  forall net cmd payload e k,
+  (length cmd <= 12)%nat -> env_serialize hash256 net cmd payload = Ok e ->
+  (k < length e)%nat -> env_parse hash256 net (firstn k e) = Err.
+Proof. exact env_rejects_truncation. Qed.
+Print Assumptions C19_envelope_rejects_truncation.
+
+(* every single-byte corruption outside the command field — magic, length, checksum or
+   payload; whatever follows on the stream — is rejected, or two different payloads with the
+   same 4-byte checksum are exhibited *)
+Theorem C19_envelope_single_byte_corruption :
+  forall (hash256 : bytes -> bytes), (forall x, length (hash256 x) = 32%nat) ->
+  forall net cmd payload e rest a x x' b,
+  (length cmd <= 12)%nat -> env_serialize hash256 net cmd payload = Ok e ->
+  e ++ rest = a ++ x :: b -> x <> x' ->
+  (length a < length e)%nat -> (length a < 4 \/ 16 <= length a)%nat ->
+  env_parse hash256 net (a ++ x' :: b) = Err \/
+  exists u v : bytes, u <> v /\ firstn 4 (hash256 u) = firstn 4 (hash256 v).
+Proof. exact env_single_byte_corruption. Qed.
+Print Assumptions C19_envelope_single_byte_corruption.
+
+(* the command field is not covered by the checksum: ANY 12 bytes in its place are accepted,
+   payload intact (this is the protocol's design, stated so that the exclusion above is exact) *)
+Theorem C19_envelope_command_field_unprotected :
+  forall (hash256 : bytes -> bytes), (forall x, length (hash256 x) = 32%nat) ->
+  forall net cmd payload e c' rest,
+  (length cmd <= 12)%nat -> length c' = 12%nat ->
+  env_serialize hash256 net cmd payload = Ok e ->
+  env_parse hash256 net (firstn 4 e ++ c' ++ skipn 16 e ++ rest) = Ok (strip0 c', payload, rest).
+Proof. exact env_command_corruption_accepted. Qed.
+Print Assumptions C19_envelope_command_field_unprotected.
+
+(* ---------------- block header, headers message ---------------- *)
+
+Theorem C19_header_exact : forall h,
+  ((exists b, serialize_header h = Ok b) <->
+   (0 <= h_version h < 4294967296 /\ 0 <= h_time h < 4294967296)) /\
+  (forall b, serialize_header h = Ok b ->
+     b = to_le 4 (h_version h) ++ rev (h_prev h) ++ rev (h_root h) ++ to_le 4 (h_time h)
+         ++ h_bits h ++ h_nonce h).
+Proof. exact (fun h => conj (serialize_header_ok_iff h) (serialize_header_layout h)). Qed.
+Print Assumptions C19_header_exact.
+
+(* HeadersMessage.parse never returns a header assembled from a short read: every returned
+   header is well-formed and serialises to 80 bytes that parse back to it *)
+Theorem C19_headers_parse_only_complete_headers : forall s hs rest,
+  bytes_ok s -> headers_parse s = Ok (hs, rest) ->
+  Forall header_wf hs /\
+  Forall (fun h => exists b, serialize_header h = Ok b /\ length b = 80%nat /\
+                             parse_header b = (h, [])) hs.
+Proof.
+  exact (fun s hs rest B H => conj (proj1 (headers_parse_wf s hs rest B H))
+                                   (headers_parse_reserialize s hs rest B H)).
+Qed.
+Print Assumptions C19_headers_parse_only_complete_headers.
+
+Theorem C19_headers_rejects_txcount : forall hs1 h hs2 b1 hb k tail,
+  Forall header_wf hs1 -> header_wf h -> headers_body hs1 = Ok b1 -> serialize_header h = Ok hb ->
+  zlen (hs1 ++ h :: hs2) < 18446744073709551616 -> 0 < k < 253 ->
+  exists nb, encode_varint (zlen (hs1 ++ h :: hs2)) = Ok nb /\
+    headers_parse (nb ++ b1 ++ hb ++ [k] ++ tail) = Err.
+Proof. exact headers_rejects_txcount. Qed.
+Print Assumptions C19_headers_rejects_txcount.
+
+(* cfilter message composed with the Golomb-coded set codec of C18 *)
+Theorem C19_cfilter_message_roundtrip_gcs : forall t bh items fb rest,
+  length bh = 32%nat -> ascending 0 items -> zlen items < 18446744073709551616 ->
+  serialize_gcs items = Ok fb -> zlen fb < 9223372036854775808 ->
+  exists b, cfilter_layout t bh fb = Ok b /\
+            cfilter_parse (b ++ rest) = Ok (t, bh, fb, items, rest).
+Proof. exact cfilter_message_roundtrip. Qed.
+Print Assumptions C19_cfilter_message_roundtrip_gcs.
+
+(* ---------------- version ---------------- *)
+
+Theorem C19_version_exact_domain : forall m,
+  (exists b, version_serialize m = Ok b) <-> version_fields_ok m.
+Proof. exact version_serialize_ok_iff. Qed.
+Print Assumptions C19_version_exact_domain.
+
+(* the bytes are the protocol's version message of the same field values — with the two bytes
+   of each port exchanged *)
+Theorem C19_version_layout_ports_swapped : forall m b,
+  version_serialize m = Ok b ->
+  version_fields_ok m /\ b = p2p_version_bytes (version_to_spec swap16 m).
+Proof. exact version_serialize_inv. Qed.
+Print Assumptions C19_version_layout_ports_swapped.
+
+Theorem C19_version_decoded_by_protocol_peer : forall m rest,
+  version_wf m ->
+  exists b, version_serialize m = Ok b /\
+    p2p_version_decode (b ++ rest) = Ok (version_to_spec swap16 m, rest).
+Proof. exact version_decoded_by_protocol. Qed.
+Print Assumptions C19_version_decoded_by_protocol_peer.
+
+Theorem C19_version_injective : forall m1 m2 b,
+  version_wf m1 -> version_wf m2 ->
+  version_serialize m1 = Ok b -> version_serialize m2 = Ok b -> m1 = m2.
+Proof. exact version_serialize_inj. Qed.
+Print Assumptions C19_version_injective.
+
+Theorem C19_version_layout_eq_protocol_iff : forall m b,
+  version_wf m -> version_serialize m = Ok b ->
+  (b = p2p_version_bytes (version_to_spec (fun p => p) m) <->
+   (vm_recv_port m / 256 = vm_recv_port m mod 256 /\
+    vm_send_port m / 256 = vm_send_port m mod 256)).
+Proof. exact version_layout_eq_protocol_iff. Qed.
+Print Assumptions C19_version_layout_eq_protocol_iff.
+
+(* FINDING: "version encodes to exactly the protocol's byte layout" fails for the ports *)
+Theorem C19_version_port_byte_order_refuted :
+  exists m b v, version_wf m /\ version_serialize m = Ok b /\
+    b <> p2p_version_bytes (version_to_spec (fun p => p) m) /\
+    p2p_version_decode b = Ok (v, []) /\
+    vm_recv_port m = 8333 /\ na_port (pv_addr_recv v) = 36128 /\
+    vm_send_port m = 8333 /\ na_port (pv_addr_from v) = 36128.
+Proof. exact version_port_byte_order_refuted. Qed.
+Print Assumptions C19_version_port_byte_order_refuted.
+
+(* VersionMessage() (after the fix 7914d9d: nonce = randint(0, 2**64 - 1)): for every clock
+   value and every value randint can return the message is built with an 8-byte nonce, and it
+   serialises whenever the clock value fits the 8-byte timestamp field *)
+Theorem C19_version_default_total : forall now r,
+  randint_lo <= r <= randint_hi ->
+  (exists m, version_default now r = Ok m /\ length (vm_nonce m) = 8%nat /\ vm_timestamp m = now) /\
+  (0 <= now < 18446744073709551616 ->
+     exists m b, version_default now r = Ok m /\ version_wf m /\ version_serialize m = Ok b).
+Proof.
+  exact (fun now r H => conj (version_default_total now r H) (version_default_serializes now r H)).
+Qed.
+Print Assumptions C19_version_default_total.
+
+(* remark: the bounds are randint's own, and 2**64 — the inclusive upper bound of the call
+   before the fix — does not fit 8 bytes *)
+Example C19_version_default_bounds_remark :
+  randint_lo = 0 /\ randint_hi = 2 ^ 64 - 1 /\ int_to_le (2 ^ 64) 8 = Err /\
+  forall now, version_default now (2 ^ 64) = Err.
+Proof. repeat split. Qed.
+
+(* ---------------- getheaders, getdata, BIP157 requests ---------------- *)
+
+Theorem C19_getheaders_exact : forall v n s e,
+  ((exists b, getheaders_serialize v n s e = Ok b) <->
+   (0 <= v < 4294967296 /\ 0 <= n < 18446744073709551616)) /\
+  (forall b, getheaders_serialize v n s e = Ok b ->
+     b = to_le 4 v ++ cs_bytes n ++ rev s ++ rev e) /\
+  (forall b, getheaders_serialize v 1 s e = Ok b -> b = p2p_getheaders_bytes v [s] e).
+Proof.
+  intros v n s e. split; [exact (getheaders_serialize_ok_iff v n s e)|]. split.
+  - exact (fun b H => proj2 (proj2 (getheaders_serialize_inv v n s e b H))).
+  - exact (getheaders_eq_protocol v s e).
+Qed.
+Print Assumptions C19_getheaders_exact.
+
+Theorem C19_getheaders_decoded_by_protocol_peer : forall v s e rest,
+  0 <= v < 4294967296 -> length s = 32%nat -> length e = 32%nat ->
+  exists b, getheaders_serialize v 1 s e = Ok b /\
+    p2p_getheaders_decode (b ++ rest) = Ok (v, [s], e, rest).
+Proof. exact getheaders_decoded_by_protocol. Qed.
+Print Assumptions C19_getheaders_decoded_by_protocol_peer.
+
+Theorem C19_getdata_exact : forall items b,
+  getdata_serialize items = Ok b <->
+  (zlen items < 18446744073709551616 /\ Forall (fun it => 0 <= fst it < 4294967296) items /\
+   b = p2p_getdata_bytes items).
+Proof. exact getdata_serialize_iff. Qed.
+Print Assumptions C19_getdata_exact.
+
+Theorem C19_getdata_decoded_by_protocol_peer : forall items rest,
+  zlen items < 18446744073709551616 ->
+  Forall (fun it => 0 <= fst it < 4294967296 /\ length (snd it) = 32%nat) items ->
+  exists b, getdata_serialize items = Ok b /\ p2p_getdata_decode (b ++ rest) = Ok (items, rest).
+Proof. exact getdata_decoded_by_protocol. Qed.
+Print Assumptions C19_getdata_decoded_by_protocol_peer.
+
+Theorem C19_getdata_injective : forall i1 i2 b,
+  Forall (fun it => length (snd it) = 32%nat) i1 -> Forall (fun it => length (snd it) = 32%nat) i2 ->
+  getdata_serialize i1 = Ok b -> getdata_serialize i2 = Ok b -> i1 = i2.
+Proof. exact getdata_serialize_inj. Qed.
+Print Assumptions C19_getdata_injective.
+
+(* getcfilters and getcfheaders share this serialiser *)
+Theorem C19_getcfilters_exact : forall t h stop,
+  (forall b, getcfilters_serialize t h stop = Ok b <->
+     (0 <= t < 256 /\ 0 <= h < 4294967296 /\ b = p2p_getcfilters_bytes t h stop)) /\
+  (forall rest, 0 <= t < 256 -> 0 <= h < 4294967296 -> length stop = 32%nat ->
+     p2p_getcfilters_decode (p2p_getcfilters_bytes t h stop ++ rest) = Ok (t, h, stop, rest)).
+Proof.
+  exact (fun t h stop => conj (getcfilters_serialize_iff t h stop)
+                              (p2p_getcfilters_decode_bytes t h stop)).
+Qed.
+Print Assumptions C19_getcfilters_exact.
+
+Theorem C19_getcfcheckpt_exact : forall t stop,
+  (forall b, getcfcheckpt_serialize t stop = Ok b <->
+     (0 <= t < 256 /\ b = p2p_getcfcheckpt_bytes t stop)) /\
+  (forall rest, 0 <= t < 256 -> length stop = 32%nat ->
+     p2p_getcfcheckpt_decode (p2p_getcfcheckpt_bytes t stop ++ rest) = Ok (t, stop, rest)).
+Proof.
+  exact (fun t stop => conj (getcfcheckpt_serialize_iff t stop)
+                            (p2p_getcfcheckpt_decode_bytes t stop)).
+Qed.
+Print Assumptions C19_getcfcheckpt_exact.
+
+(* the protocol transcription is self-consistent: its decoders invert its layouts *)
+Theorem C19_p2p_spec_self_consistent :
+  (forall v rest, p2p_version_wf v -> p2p_version_decode (p2p_version_bytes v ++ rest) = Ok (v, rest)) /\
+  (forall v loc stop rest, 0 <= v < 4294967296 -> zlen loc < 18446744073709551616 ->
+     Forall (fun h => length h = 32%nat) loc -> length stop = 32%nat ->
+     p2p_getheaders_decode (p2p_getheaders_bytes v loc stop ++ rest) = Ok (v, loc, stop, rest)).
+Proof. exact (conj p2p_version_decode_bytes p2p_getheaders_decode_bytes). Qed.
+Print Assumptions C19_p2p_spec_self_consistent.
+
+(* ---------------- SimpleNode on an in-memory stream ---------------- *)
+
+(* wait_for over a stream of well-formed envelopes: those before the first wanted command are
+   skipped, every version is answered with verack and every ping with pong of the same nonce,
+   in order; the wanted payload comes back intact; the stream is left right behind it *)
+Theorem C19_node_wait_for_stream :
+  forall (hash256 : bytes -> bytes) (HL : forall x, length (hash256 x) = 32%nat),
+  forall net wanted pre c p rest,
+  Forall frame_ok pre -> Forall (fun cp => existsb (beq (fst cp)) wanted = false) pre ->
+  frame_ok (c, p) -> existsb (beq c) wanted = true ->
+  node_wait_for hash256 net wanted (frames hash256 net pre ++ envbytes hash256 net c p ++ rest)
+  = Ok (c, p, rest, replies hash256 net (pre ++ [(c, p)])).
+Proof. exact node_wait_for_stream. Qed.
+Print Assumptions C19_node_wait_for_stream.
+
+Theorem C19_node_wait_for_eof :
+  forall (hash256 : bytes -> bytes) (HL : forall x, length (hash256 x) = 32%nat),
+  forall net wanted pre,
+  Forall frame_ok pre -> Forall (fun cp => existsb (beq (fst cp)) wanted = false) pre ->
+  node_wait_for hash256 net wanted (frames hash256 net pre) = Err.
+Proof. exact node_wait_for_eof. Qed.
+Print Assumptions C19_node_wait_for_eof.
+
+(* the loop of the model never stops for lack of fuel *)
+Theorem C19_node_wait_for_fuel :
+  forall (hash256 : bytes -> bytes) (HL : forall x, length (hash256 x) = 32%nat),
+  forall net wanted s f, (length s < f)%nat ->
+  wait_loop hash256 f net wanted s [] = node_wait_for hash256 net wanted s.
+Proof. exact node_wait_for_fuel. Qed.
+Print Assumptions C19_node_wait_for_fuel.
+
+(* message -> payload -> envelope -> stream -> wait_for(Class) -> message, for every message
+   class that has a parser *)
+Theorem C19_node_message_roundtrip :
+  forall (hash256 : bytes -> bytes) (HL : forall x, length (hash256 x) = 32%nat),
+  forall net m p rest,
+  msg_wf m -> msg_payload m = Ok p -> zlen p < 4294967296 ->
+  exists e, node_send hash256 net (msg_command m) (msg_payload m) = Ok e /\
+    e = envbytes hash256 net (msg_command m) p /\
+    node_wait_for_msg hash256 net [msg_command m] (e ++ rest)
+    = Ok (m, rest, reply hash256 net (msg_command m) p).
+Proof. exact node_msg_roundtrip. Qed.
+Print Assumptions C19_node_message_roundtrip.
+
+Theorem C19_node_ping_pong :
+  forall (hash256 : bytes -> bytes) (HL : forall x, length (hash256 x) = 32%nat),
+  forall net nonce, length nonce = 8%nat ->
+  exists e1 e2,
+    node_send hash256 net cmd_ping (Ok (ping_serialize nonce)) = Ok e1 /\
+    node_wait_for_msg hash256 net [cmd_ping] e1 = Ok (MPing nonce, [], [e2]) /\
+    node_wait_for_msg hash256 net [cmd_pong] e2 = Ok (MPong nonce, [], []).
+Proof. exact node_ping_pong. Qed.
+Print Assumptions C19_node_ping_pong.
+
+Theorem C19_node_handshake :
+  forall (hash256 : bytes -> bytes) (HL : forall x, length (hash256 x) = 32%nat),
+  forall net now r peer_version rest,
+  0 <= now < 18446744073709551616 -> 0 <= r < 18446744073709551616 ->
+  zlen peer_version < 4294967296 ->
+  exists m v, version_default now r = Ok m /\ version_serialize m = Ok v /\
+    node_handshake hash256 net now r
+      (envbytes hash256 net cmd_version peer_version ++ envbytes hash256 net cmd_verack [] ++ rest)
+    = Ok (rest, [envbytes hash256 net cmd_version v; envbytes hash256 net cmd_verack []]).
+Proof. exact node_handshake_completes. Qed.
+Print Assumptions C19_node_handshake.
+
+(* ---------------- non-vacuity of the new hypotheses ---------------- *)
+
+Example C19_nonvacuous_hash : exists H : bytes -> bytes, forall x, length (H x) = 32%nat.
+Proof. exists (fun x => repeatz (zlen x mod 256) 32). intros x. apply repeatz_length. Qed.
+
+Example C19_nonvacuous_version : version_wf version_example /\ version_fields_ok version_example.
+Proof. exact (conj version_example_wf (proj1 version_example_wf)). Qed.
+
+Example C19_nonvacuous_frames :
+  Forall frame_ok [(cmd_version, [1; 2; 3]); (cmd_ping, repeatz 7 8); ([105; 110; 118], [])] /\
+  Forall (fun cp => existsb (beq (fst cp)) [cmd_headers] = false)
+         [(cmd_version, [1; 2; 3]); (cmd_ping, repeatz 7 8); ([105; 110; 118], [])] /\
+  frame_ok (cmd_headers, [0]) /\ existsb (beq cmd_headers) [cmd_headers] = true.
+Proof.
+  unfold frame_ok, no_nul_ends, zlen. cbn.
+  repeat split; repeat constructor; cbn; try lia; try reflexivity.
+Qed.
+
+Example C19_nonvacuous_messages :
+  msg_wf MVerAck /\ msg_wf (MPing (repeatz 1 8)) /\ msg_wf (MPong (repeatz 2 8)) /\
+  msg_wf (MHeaders []) /\ msg_wf (MCFilter 0 (repeatz 3 32) [0] []) /\
+  msg_wf (MCFHeaders 0 (repeatz 4 32) (repeatz 5 32) [repeatz 6 32]) /\
+  msg_wf (MCFCheckPt 0 (repeatz 4 32) [repeatz 6 32; repeatz 7 32]).
+Proof.
+  unfold zlen. cbn. repeat split; try lia; repeat constructor.
+Qed.
+
+Example C19_nonvacuous_gcs :
+  ascending 0 [3; 3; 1000000] /\ exists fb, serialize_gcs [3; 3; 1000000] = Ok fb /\
+  zlen fb < 9223372036854775808.
+Proof. split; [cbn; lia|]. eexists. split; [vm_compute; reflexivity|]. vm_compute. reflexivity. Qed.
+
+Example C19_nonvacuous_corruption :
+  let H := fun x : bytes => repeatz (zlen x mod 256) 32 in
+  exists e, env_serialize H 0 cmd_ping [1; 2; 3; 4; 5; 6; 7; 8] = Ok e /\
+    e ++ [] = firstn 30 e ++ 7 :: skipn 31 e /\ (30 < length e)%nat.
+Proof. eexists. split; [vm_compute; reflexivity|]. split; [reflexivity|cbn; lia]. Qed.
+
+(* ---------------- Block.parse_header(hex=...), CFilterMessage.__eq__, short reads ---------------- *)
+From V Require Import Model.Hex Proofs.HexP.
+
+Theorem C19_hex_roundtrip : forall b, bytes_ok b -> hex_decode (hex_encode b) = Ok b.
+Proof. exact hex_decode_encode. Qed.
+Print Assumptions C19_hex_roundtrip.
+
+(* the hex entry point reads the same header as the stream entry point; with hex="" it raises *)
+Theorem C19_parse_header_hex_entry :
+  (forall s, bytes_ok s -> s <> [] -> parse_header_hex (hex_encode s) = Ok (parse_header s)) /\
+  (forall h, header_wf h ->
+     exists b, serialize_header h = Ok b /\ parse_header_hex (hex_encode b) = Ok (h, [])) /\
+  parse_header_hex [] = Err.
+Proof. exact (conj parse_header_hex_encode (conj header_hex_roundtrip parse_header_hex_empty)). Qed.
+Print Assumptions C19_parse_header_hex_entry.
+
+(* CFilterMessage.__eq__ holds exactly when the two messages have the same wire bytes *)
+Theorem C19_cfilter_eq_iff_same_bytes : forall t1 bh1 fb1 t2 bh2 fb2 b1 b2,
+  length bh1 = 32%nat -> length bh2 = 32%nat ->
+  zlen fb1 < 9223372036854775808 -> zlen fb2 < 9223372036854775808 ->
+  cfilter_layout t1 bh1 fb1 = Ok b1 -> cfilter_layout t2 bh2 fb2 = Ok b2 ->
+  (cfilter_eq (t1, bh1, fb1) (t2, bh2, fb2) = true <-> b1 = b2).
+Proof. exact cfilter_eq_iff. Qed.
+Print Assumptions C19_cfilter_eq_iff_same_bytes.
+
+(* truncation INSIDE a payload is not an error for ping/pong, cfheaders, cfcheckpt and the
+   header reader (silent short reads): only the envelope (length + checksum) protects *)
+Theorem C19_message_short_reads_accepted_refuted :
+  ping_parse [1; 2; 3] = ([1; 2; 3], []) /\
+  cfcheckpt_parse (7 :: repeatz 9 32 ++ [2] ++ repeatz 5 32 ++ [6; 6])
+    = Ok (7, repeatz 9 32, [repeatz 5 32; [6; 6]], []) /\
+  cfheaders_parse (7 :: repeatz 9 32 ++ repeatz 8 32 ++ [3] ++ repeatz 5 32)
+    = Ok (7, repeatz 9 32, repeatz 8 32, [repeatz 5 32; []; []], []) /\
+  fst (parse_header [1; 0; 0; 0; 7]) =
+    {| h_version := 1; h_prev := [7]; h_root := []; h_time := 0; h_bits := []; h_nonce := [] |}.
+Proof. exact message_short_reads_accepted. Qed.
+Print Assumptions C19_message_short_reads_accepted_refuted.
+
+(* the command literals of Model/Wire.v spelled as text (kept last: String shadows length) *)
+From Coq Require Import String.
+From V Require Base.Disp.
+Open Scope string_scope.
+Example C19_command_literals :
+  cmd_version = Disp.s2z "version" /\ cmd_verack = Disp.s2z "verack" /\ cmd_ping = Disp.s2z "ping" /\
+  cmd_pong = Disp.s2z "pong" /\ cmd_headers = Disp.s2z "headers" /\ cmd_cfilter = Disp.s2z "cfilter" /\
+  cmd_cfheaders = Disp.s2z "cfheaders" /\ cmd_cfcheckpt = Disp.s2z "cfcheckpt" /\
+  default_user_agent = Disp.s2z "/programmingblockchain:0.1/".
+Proof. repeat split; reflexivity. Qed.
